@@ -4,8 +4,8 @@ import pickle
 from hypothesis import strategies as st
 
 from vf import gen, speccheck
-from vf.runner import HarnessError, SubCheck, describe_exc
-from vf.scenario import controlled, documented_search_refusals, make_ruledb, make_searcher, requiet, run_call
+from vf.runner import HarnessError, SubCheck, Violation, describe_exc
+from vf.scenario import controlled, documented_search_refusals, make_ruledb, make_searcher, requiet, run_call, run_search, scenario_context
 
 PROPERTY = "C17"
 RULE = (
@@ -225,6 +225,92 @@ def run_pickle_twin(case, ctx):
         ctx.label("interrupted")
     if more:
         ctx.label("continued")
+
+
+def run_rule_cache_twin(case, ctx):
+    """A searcher whose forest rule database was built with the documented ``rule_cache``
+    argument (the way expand_comb_class seeds one: the rules of a specification, with a
+    pack that cannot re-derive them) is pickled: the restored searcher must equal the
+    original and hand back the same specification."""
+    from copy import copy
+
+    from comb_spec_searcher import CombinatorialSpecificationSearcher, StrategyPack
+    from comb_spec_searcher.rule_db import RuleDBForest
+    from comb_spec_searcher.strategies.rule import EquivalencePathRule
+
+    with scenario_context(case) as clock:
+        out = run_search(case, clock)
+        if out.kind != "spec":
+            ctx.label("no-spec")
+            return
+        spec, start = out.spec, out.start
+        rules = []
+        for _, rule in spec.rules_dict.items():
+            if isinstance(rule, EquivalencePathRule):
+                rules.extend(map(copy, rule.rules))
+            else:
+                rules.append(copy(rule))
+        pack2 = StrategyPack([], [], [], list(out.pack.ver_strats)[:1], name="cache-only")
+        try:
+            ruledb = RuleDBForest(reverse=False, rule_cache=rules)
+            css = CombinatorialSpecificationSearcher(start, pack2, ruledb=ruledb)
+            for rule in rules:
+                start_label = css.classdb.get_label(rule.comb_class)
+                end_labels = tuple(map(css.classdb.get_label, rule.children))
+                ruledb.add(start_label, end_labels, rule)
+            has = css.has_specification()
+        except Exception as e:
+            ctx.label("cache-searcher-not-built")
+            ctx.count("search_crashes:" + describe_exc(e)[:100])
+            return
+        finally:
+            requiet()
+        if not has:
+            ctx.label("cache-searcher-without-specification")
+            return
+        try:
+            twin = pickle.loads(pickle.dumps(css))
+        except Exception as e:
+            ctx.fail("pickle", f"pickling a searcher with a rule cache raised {describe_exc(e)}", f"pickle/raises/{type(e).__name__}")
+            return
+        try:
+            ctx.check(twin == css, "equality", "the restored searcher (forest database with a rule cache) is not equal to the original")
+        except Violation:
+            raise
+        except Exception as e:
+            ctx.fail("equality", f"comparing the restored searcher raised {describe_exc(e)}", "equality/raises")
+        results = []
+        for name, s_ in (("original", css), ("restored", twin)):
+            import random as _random
+
+            _random.seed(case.get("rng", 0))
+            try:
+                results.append(("spec", s_.get_specification(minimization_time_limit=0.1)))
+            except Exception as e:
+                results.append(("raised", describe_exc(e)))
+            finally:
+                requiet()
+        if results[0][0] == "raised":
+            ctx.label("cache-extraction-raised")
+            ctx.count("search_crashes:" + results[0][1][:100])
+            if results[1][0] != "raised":
+                ctx.fail("restored-answer", f"the original raised {results[0][1]} but the restored searcher returned a specification", "cache-twin/answers-differ")
+            return
+        if not ctx.check(
+            results[1][0] == "spec",
+            "restored-answer",
+            f"the original hands back its specification, the restored searcher raised {results[1][1]}",
+        ):
+            return
+        N = speccheck.size_bound(start)
+        speccheck.check_counts(ctx, results[1][1], start, N, part="restored-count")
+        ctx.check(
+            set(results[0][1].rules_dict) == set(results[1][1].rules_dict),
+            "restored-answer",
+            "original and restored searcher hand back specifications over different classes",
+        )
+        ctx.nontrivial = len(rules) >= 4
+        ctx.label("cached-rules:" + str(min(len(rules), 8) // 2 * 2))
 
 
 def run_resume(case, ctx):
@@ -490,6 +576,13 @@ def enumerate_k(tier, shard, nshards):
 
 def subchecks():
     return [
+        SubCheck(
+            name="rule-cache-twin",
+            run_case=run_rule_cache_twin,
+            strategy=lambda tier: gen.scenario(tier, allow_pack=False),
+            examples={"quick": 1500, "thorough": 30000},
+            case_timeout=30.0,
+        ),
         SubCheck(
             name="pickle-twin",
             run_case=run_pickle_twin,
